@@ -21,6 +21,27 @@ import (
 	"grol.io/grol/token"
 )
 
+// skipComments: drop comment statements while dumping (compact mode omits them). Not goroutine safe.
+var skipComments bool
+
+// maskCommentFlags: the two layout flags of comments are not part of C02's structural identity
+// (their stability is C03's subject).
+var maskCommentFlags bool
+
+// DumpNoComments dumps a tree without its comment statements (and with comment flags masked).
+func DumpNoComments(n ast.Node) string {
+	skipComments, maskCommentFlags = true, true
+	defer func() { skipComments, maskCommentFlags = false, false }()
+	return DumpAST(n)
+}
+
+// DumpNoFlags dumps a tree with the comment layout flags masked.
+func DumpNoFlags(n ast.Node) string {
+	maskCommentFlags = true
+	defer func() { maskCommentFlags = false }()
+	return DumpAST(n)
+}
+
 func tk(t *token.Token) string {
 	if t == nil {
 		return "-1 -"
@@ -81,12 +102,24 @@ func DumpAST(n ast.Node) string {
 	case *ast.Boolean:
 		return "(Bool " + tk(x.Token) + " " + b01(x.Val) + ")"
 	case *ast.Comment:
+		if maskCommentFlags {
+			return "(Cmt " + tk(x.Token) + " - -)"
+		}
 		return "(Cmt " + tk(x.Token) + " " + b01(x.SameLineAsPrevious) + " " + b01(x.SameLineAsNext) + ")"
 	case *ast.ControlExpression:
 		return "(Ctl " + tk(x.Token) + ")"
 	case *ast.ReturnStatement:
 		return "(Ret " + tk(x.Token) + " " + DumpAST(x.ReturnValue) + ")"
 	case *ast.Statements:
+		if skipComments {
+			var l []ast.Node
+			for _, e := range x.Statements {
+				if _, isC := e.(*ast.Comment); !isC {
+					l = append(l, e)
+				}
+			}
+			return "(Stmts " + DumpList(l, true) + ")"
+		}
 		return "(Stmts " + DumpList(x.Statements, true) + ")"
 	case *ast.PrefixExpression:
 		return "(Pre " + tk(x.Token) + " " + DumpAST(x.Right) + ")"
